@@ -117,7 +117,11 @@ func RunBinary(p *Plan, o ExecOpts) (*ExecOut, error) {
 	distinct := map[string]bool{}
 	var samples []any
 
-	bin := filepath.Join(o.Root, "bin", "fundraisingd")
+	srcRoot := o.SrcRoot
+	if srcRoot == "" {
+		srcRoot = o.Root
+	}
+	bin := filepath.Join(srcRoot, "bin", "fundraisingd")
 	tmp, err := os.MkdirTemp("", "fmc-bin-")
 	if err != nil {
 		return nil, err
